@@ -21,7 +21,9 @@ EXTENDS Naturals, Sequences, FiniteSets, TLC, Json
 CONSTANTS Clause_,     \* clause ids
           DialectOf,   \* [clause -> dialect]
           KeysOf,      \* [clause -> set of dict keys the clause writes]
-          TopIn,       \* [clause -> set of keys that are declared fields of the owning mode's dataclass]
+          ModesOfKey,  \* [key -> set of output modes whose dataclass declares AND shows the key] (field metadata output_modes)
+          DeclaredIn,  \* [key -> set of output modes whose dataclass declares the key, shown or not] (mixin fields, inherited classes)
+          ShowModes,   \* output modes in which a table may be presented
           CommonKeys,  \* keys that are fields of every mode (partitioned_by, tablespace, comment, partition_by)
           FirstOnly,   \* clauses the dialect only admits directly after the column list (Oracle ORGANIZATION INDEX)
           Bodies,      \* body ids
@@ -62,15 +64,20 @@ Clause(c) ==
     /\ Log([a |-> "clause", c |-> c])
     /\ UNCHANGED <<phase, body, aftercols, view>>
 
+\* TableData.pre_load_mods + BaseData.filter_out_output for one key in output mode m
+Place(k, m) == IF k \in CommonKeys THEN "top"
+               ELSE IF m = "sql" THEN "props"                       \* BaseData declares no dialect field
+               ELSE IF m \in ModesOfKey[k] THEN "top"               \* declared and shown
+               ELSE IF m \in DeclaredIn[k] THEN "hidden"            \* declared (mixin / inherited class) but filtered out by output_modes
+               ELSE "props"                                         \* not a field of this mode's class
+
 Present(m) ==
     /\ phase = "after" /\ phase' = "shown"
-    /\ LET owner == applied # <<>> /\ DialectOf[applied[1]] = m
-           top == {e \in dict : e[1] \in CommonKeys \/ (owner /\ e[1] \in TopIn[e[2]])}
-       IN  view' = [mode |-> m, top |-> top, props |-> dict \ top]
+    /\ view' = [mode |-> m, top |-> {e \in dict : Place(e[1], m) = "top"}, props |-> {e \in dict : Place(e[1], m) = "props"}]
     /\ Log([a |-> "present", m |-> m])
     /\ UNCHANGED <<body, intact, applied, dict, aftercols>>
 
-Modes == {"sql"} \cup {DialectOf[c] : c \in Range(applied)}
+Modes == ShowModes \cup {DialectOf[c] : c \in Range(applied)}
 Next == \/ \E b \in Bodies : Close(b)
         \/ \E c \in Clause_ : Clause(c)
         \/ \E m \in Modes : Present(m)
@@ -81,8 +88,13 @@ ClausesCombine == \A c \in Range(applied) : \A k \in KeysOf[c] : <<k, c>> \in di
 NoForeignKeys == \A e \in dict : e[2] \in Range(applied) /\ e[1] \in KeysOf[e[2]]
 ClauseMode == (phase = "after" \/ phase = "shown") => aftercols
 Placement == phase = "shown" =>
-               /\ view.top \cup view.props = dict /\ view.top \cap view.props = {}
-               /\ view.mode = "sql" => \A e \in view.top : e[1] \in CommonKeys
+               /\ view.top \cap view.props = {} /\ view.top \cup view.props \subseteq dict
+               /\ view.mode = "sql" => (\A e \in view.top : e[1] \in CommonKeys) /\ view.top \cup view.props = dict
+\* C10: a dialect key is at top level only in the modes documented for it, and in its owning mode it IS at top level or in
+\* table_properties (never lost)
+ModeFields == phase = "shown" =>
+               /\ \A e \in view.top : e[1] \in CommonKeys \/ view.mode \in ModesOfKey[e[1]]
+               /\ \A e \in dict : view.mode = DialectOf[e[2]] => e \in view.top \cup view.props
 Emit == (WithHist /\ phase = "shown") =>
           PrintT(<<"BEH", ToJson([body |-> body, clauses |-> applied, mode |-> view.mode,
                                   top |-> {e[1] : e \in view.top}, props |-> {e[1] : e \in view.props}])>>)
